@@ -523,7 +523,7 @@ STREAM(r4_arith) {
   // dot products, lengths 0..5 (thorough: up to 64 exhaustively, sampled up to 200)
   std::vector<uint64_t> lens;
   for (uint64_t n = 0; n <= (thorough ? 64 : 5); n++) lens.push_back(n);
-  if (thorough) { lens.push_back(100); lens.push_back(199); lens.push_back(200); } else lens.push_back(17);
+  if (thorough) { lens.push_back(100); lens.push_back(199); lens.push_back(200); } else for (uint64_t n : {7, 8, 9, 15, 16, 17, 24, 32, 33}) lens.push_back(n);  // around every unroll factor
   for (uint64_t n : lens)
     for (int cols = 1; cols <= 2; cols++)
       for (int avx2 = 0; avx2 < 2; avx2++)
